@@ -2,6 +2,7 @@
 //! ndjson traces that TLC validates against the specifications.
 mod act;
 mod c13;
+mod radix;
 mod util;
 
 fn main() {
@@ -14,6 +15,9 @@ fn main() {
     let (inp, outp) = (args[2].as_str(), args[3].as_str());
     match args[1].as_str() {
         "c13" => util::run_cases(inp, outp, c13::run),
+        "radix" => util::run_cases(inp, outp, radix::run),
+        "radix_prefix" => util::run_cases(inp, outp, radix::run_prefix),
+        "radix_rx" => util::run_cases(inp, outp, radix::run_rx),
         "act" => util::run_cases(inp, outp, act::run),
         other => {
             eprintln!("harness: unknown driver {}", other);
